@@ -1020,9 +1020,17 @@ impl<'a, 'b> GeneratorState<'a> {
                             None => {
                                 return Err(self
                                     .compiler_state
-                                    .syntax_error("Break statement outside loop", pos))
+                                    .syntax_error("Continue statement outside loop", pos))
                             }
-                            Some((cl, _, _)) => cl.clone(),
+                            Some((cl, _, _)) => {
+                                // In a switch that is not in a loop
+                                if cl.is_empty() {
+                                    return Err(self
+                                        .compiler_state
+                                        .syntax_error("Continue statement outside loop", pos));
+                                }
+                                cl.clone()
+                            }
                         }
                     };
                     self.generate_condition(condition, pos, false, &cont_label, false)?;
